@@ -34,7 +34,7 @@ DECIDING = ['bp.app.bpsec:Bpsec._verify_bib', 'bp.app.bpsec:Bpsec._verify_bcb', 
 REQUIRED_OBS = ['bundles', 'expect_fail', 'expect_deliver', 'reports_with_security_reason', 'accepted_blocks_removed', 'bcb_plaintext_released', 'fragmented_signed']
 
 SEC_REASONS = {12, 13, 14, 15, 16}
-CLASSES = ['valid', 'valid-scope', 'dup-params-apart', 'none', 'wrong-tag', 'unknown-kid', 'altered-target', 'altered-primary', 'unknown-context', 'missing-target',
+CLASSES = ['valid', 'valid-scope', 'dup-params-apart', 'none', 'wrong-tag', 'unknown-kid', 'altered-target', 'altered-primary', 'altered-flag-bits', 'unknown-context', 'missing-target',
            'dup-params', 'dup-results', 'count-mismatch', 'two-results', 'zero-results', 'garbage-cose', 'wrong-msg-type', 'truncated-cose',
            'not-an-asb', 'asb-bad-source', 'scope-missing-block', 'two-blocks-first-bad', 'two-blocks-second-bad',
            'two-blocks-both-good', 'multi-target-first-bad', 'multi-target-last-bad', 'multi-target-good', 'attached-original-altered-target',
@@ -113,6 +113,13 @@ def build(cls, variant, rng, report):
     elif cls == 'altered-primary':
         add_block(kind, pay, 2)
         pri['lifetime'] += 1
+    elif cls == 'altered-flag-bits':
+        # a flag bit (assigned or not) of the target block or of the bundle set after the source secured it: bound by the default scope
+        add_block(kind, pay, 2)
+        if rng.random() < 0.5:
+            pay['flags'] |= rng.choice([0x08, 0x20, 0x40, 0x80, 0x100, 0x01])
+        else:
+            pri['flags'] |= rng.choice([0x08, 0x80, 0x200000, 0x400000, 0x100, 0x04])
     elif cls == 'unknown-context':
         def mut(asb, sec, tgt):
             asb.update(context_id=rng.choice([1, 2, 99, 65536, -7]))
@@ -350,18 +357,18 @@ def check_fragmented(rng, accept, altered, obs):
     return []
 
 
-def x5t_history(keys_mode, accept, obs):
+def x5t_history(keys_mode, accept, obs, midday=False):
     ''' Several signed bundles through ONE receiver: certificate chains that validated once are remembered (x5t look-up), but each
     bundle is judged at its own creation time.  :return: list of (kind, text, detail) '''
     import datetime
     from cryptography.hazmat.primitives import serialization
     from vf.world.sim import Sim
     from vf import sec_harness as sh
-    (cert, key) = sh.pki()['variants']['good']
+    (cert, key) = sh.pki()['variants']['midday' if midday else 'good']
     der = cert.public_bytes(serialization.Encoding.DER)
 
-    def dtn_ms(year, month=6):
-        return int((datetime.datetime(year, month, 1) - datetime.datetime(2000, 1, 1)).total_seconds()) * 1000
+    def dtn_ms(year, month=6, day=1, hour=0):
+        return int((datetime.datetime(year, month, day, hour) - datetime.datetime(2000, 1, 1)).total_seconds()) * 1000
 
     def signed(ctime, seq, x5t_only, payload):
         pri = dict(version=7, flags=0, crc_type=1, dest='dtn://dst-node/app', src='dtn://src-node/app', report_to='dtn:none', create_time=ctime, seqno=seq,
@@ -381,6 +388,15 @@ def x5t_history(keys_mode, accept, obs):
              ('x5chain, created before the certificate was valid', dtn_ms(2019), False), ('x5t only, created within validity again', dtn_ms(2033), True),
              ('x5chain, creation time beyond the calendar (2^62 ms)', 2 ** 62, False), ('x5t only, creation time 2^64-1', 2 ** 64 - 1, True),
              ('x5chain, creation time in the year 12000', dtn_ms(9999) + 2001 * 365 * 86400000, False)]
+    if midday:
+        # validity 2021-03-10T12:00 .. 2035-06-15T12:00: bundles created on the first and on the last day, either side of noon
+        steps = [('x5chain, created on the last day of validity before the expiry hour', dtn_ms(2035, 6, 15, 10), False),
+                 ('x5chain, created on the same day after the expiry hour', dtn_ms(2035, 6, 15, 15), False),
+                 ('x5t only, created on the same day after the expiry hour', dtn_ms(2035, 6, 15, 16), True),
+                 ('x5t only, created on the same day before the expiry hour', dtn_ms(2035, 6, 15, 11), True),
+                 ('x5chain, created on the first day of validity after the start hour', dtn_ms(2021, 3, 10, 13), False),
+                 ('x5chain, created on the same day before the start hour', dtn_ms(2021, 3, 10, 9), False),
+                 ('x5t only, created on the same day before the start hour', dtn_ms(2021, 3, 10, 8), True)]
     sim = Sim(0, 'eager')
     dst = sh.receiver_node(sim, keys_mode, accept=accept)
     oracle = sh.oracle_keys(keys_mode)
@@ -438,7 +454,7 @@ def run_case(case):
         if case['cls'] == 'x5t-history':
             for keys in ('all', 'none'):
                 for accept in (False, True):
-                    for (kind, text, detail) in x5t_history(keys, accept, obs):
+                    for (kind, text, detail) in x5t_history(keys, accept, obs) + x5t_history(keys, accept, obs, midday=True):
                         violations.append(dict(key=None, what='[%s] keys=%s accept=%s: %s' % (kind, keys, accept, text), detail=detail))
                     classes.add('x5t-history|%s|%s' % (keys, accept))
                     evaluations += 1
